@@ -26,6 +26,7 @@ class Models:
         self.interpret = lambda ty, trait, method: trait not in ('Clone', 'Debug', 'Display')
         register_all(self)
         register_more(self)
+        register_ints(self)
 
     def add(self, selfty, trait, method, fn):
         self.table[(selfty, trait, method)] = fn
@@ -1075,7 +1076,7 @@ def m_hash_write(I, fr, a, ck):
 
 def m_discriminant_value(I, fr, a, ck):
     v = I.peel_all(a[0], fr)
-    return ('disc', v)
+    return Disc(v)
 
 
 # ------------------------------------------------------------------------------------------------ registration
@@ -1591,3 +1592,133 @@ def register_more(M):
     A('HashMap', None, 'remove', m_map_remove)
     A('HashMap', None, 'new', m_map_default)
     A('HashSet', 'Default', 'default', m_map_default)
+
+
+# ------------------------------------------------------------------------------------------------ integer helpers
+
+_INT_RE = re.compile(r'\b(usize|isize|u8|u16|u32|u64|u128|i8|i16|i32|i64|i128)\b')
+
+
+def _int_ty(name):
+    from .mirparse import int_type
+    return int_type(name)
+
+
+def _range(bits, signed):
+    return (-(1 << (bits - 1)), (1 << (bits - 1)) - 1) if signed else (0, (1 << bits) - 1)
+
+
+def m_try_from(I, fr, a, ck):
+    """<T as TryFrom<U>>::try_from for integer types: Ok(x as T) when x is in T's range else Err"""
+    dst = _int_ty(ck.selfraw.strip()) if ck.selfraw else None
+    m = re.search(r'TryFrom<\s*(\w+)\s*>', ck.raw)
+    src = _int_ty(m.group(1)) if m else None
+    if dst is None or src is None:
+        raise Unsupported('try_from ' + ck.raw)
+    x = a[0]
+    (db, ds), (sb, ss) = dst, src
+    lo, hi = _range(db, ds)
+    if isinstance(x, int):
+        return mk('Result', 0, [x]) if lo <= x <= hi else mk('Result', 1, [Opaque('TryFromIntError')])
+    X = I.to_bv(x, sb)
+    W = max(sb, db) + 1
+    ext = z3.SignExt(W - sb, X) if ss else z3.ZeroExt(W - sb, X)
+    inr = z3.And(ext >= z3.BitVecVal(lo, W), ext <= z3.BitVecVal(hi, W))
+    if db == sb:
+        conv = X
+    elif db < sb:
+        conv = z3.Extract(db - 1, 0, X)
+    else:
+        conv = z3.SignExt(db - sb, X) if ss else z3.ZeroExt(db - sb, X)
+    return Adt('Result', {0: (inr, (conv,)), 1: (z3.Not(inr), (Opaque('TryFromIntError'),))})
+
+
+def m_result_unwrap_or(I, fr, a, ck):
+    v, d = a
+    good = 1 if v.ty == 'Option' else 0
+    res = d
+    if good in v.alts:
+        res = merge(v.alts[good][0], v.alts[good][1][0], d)
+    return res
+
+
+def _impl_int(ck):
+    m = re.search(r'<impl (\w+)>', ck.raw)
+    t = _int_ty(m.group(1)) if m else None
+    if t is None:
+        raise Unsupported('integer method ' + ck.raw)
+    return t
+
+
+def m_int_method(I, fr, a, ck):
+    bits, signed = _impl_int(ck)
+    name = ck.method
+    lo, hi = _range(bits, signed)
+    x = a[0]
+    y = a[1] if len(a) > 1 else None
+    conc = isinstance(x, int) and (y is None or isinstance(y, int))
+    if name in ('saturating_add', 'saturating_sub', 'checked_add', 'checked_sub', 'wrapping_add', 'wrapping_sub', 'overflowing_add', 'overflowing_sub'):
+        add = name.endswith('add')
+        if conc:
+            e = x + y if add else x - y
+            ok = lo <= e <= hi
+            if name.startswith('saturating'):
+                return e if ok else (hi if e > hi else lo)
+            if name.startswith('checked'):
+                return some(e) if ok else NONE
+            w = I.wrap(e, bits, signed)
+            return w if name.startswith('wrapping') else mk_tuple([w, not ok])
+        X, Y = I.to_bv(x, bits), I.to_bv(y, bits)
+        W = bits + 1
+        ex = (z3.SignExt(1, X) if signed else z3.ZeroExt(1, X))
+        ey = (z3.SignExt(1, Y) if signed else z3.ZeroExt(1, Y))
+        e = ex + ey if add else ex - ey
+        if signed:
+            over, under = e > z3.BitVecVal(hi, W), e < z3.BitVecVal(lo, W)
+        else:
+            # unsigned: W-bit arithmetic; sub underflow shows as borrow
+            over = z3.UGT(e, z3.BitVecVal(hi, W)) if add else z3.BoolVal(False)
+            under = z3.ULT(X, Y) if not add else z3.BoolVal(False)
+        r = X + Y if add else X - Y
+        if name.startswith('saturating'):
+            return z3.If(over, z3.BitVecVal(hi, bits), z3.If(under, z3.BitVecVal(lo, bits), r))
+        if name.startswith('checked'):
+            ok = z3.Not(z3.Or(over, under))
+            return Adt('Option', {1: (ok, (r,)), 0: (z3.Not(ok), ())})
+        if name.startswith('wrapping'):
+            return r
+        return mk_tuple([r, z3.Or(over, under)])
+    if name in ('min', 'max'):
+        if conc:
+            return min(x, y) if name == 'min' else max(x, y)
+        X, Y = I.to_bv(x, bits), I.to_bv(y, bits)
+        lt = (X < Y) if signed else z3.ULT(X, Y)
+        return z3.If(lt, X, Y) if name == 'min' else z3.If(lt, Y, X)
+    if name == 'abs' and signed:
+        if conc:
+            return abs(x)
+        X = I.to_bv(x, bits)
+        return z3.If(X < 0, -X, X)
+    raise Unsupported('integer method ' + ck.raw)
+
+
+def m_cmp_max_min(I, fr, a, ck):
+    x, y = a
+    if isinstance(x, int) and isinstance(y, int):
+        return max(x, y) if ck.method == 'max' else min(x, y)
+    X, Y = I.to_bv(x, 64), I.to_bv(y, 64)
+    lt = z3.ULT(X, Y)
+    return z3.If(lt, Y, X) if ck.method == 'max' else z3.If(lt, X, Y)
+
+
+def register_ints(M):
+    A = M.add
+    A(None, 'TryFrom', 'try_from', m_try_from)
+    A(None, 'TryInto', 'try_into', m_try_from)
+    A('Result', None, 'unwrap_or', m_result_unwrap_or)
+    A('Result', None, 'unwrap_or_default', m_result_unwrap_or)
+    for m in ('saturating_add', 'saturating_sub', 'checked_add', 'checked_sub', 'wrapping_add', 'wrapping_sub', 'overflowing_add',
+              'overflowing_sub', 'min', 'max', 'abs'):
+        A('num', None, m, m_int_method)
+    A('cmp', None, 'max', m_cmp_max_min)
+    A('cmp', None, 'min', m_cmp_max_min)
